@@ -9,6 +9,7 @@ import DudModel.Lock
 import DudModel.Sys
 import DudModel.SysCmd
 import DudModel.SysCheckout
+import DudModel.PathSpec
 /-!
 # `dudmodel` — line-protocol driver of the executable model
 
@@ -611,6 +612,9 @@ partial def pathLoop (inp out : IO.FS.Stream) : IO Unit := do
   | ["join", a, b] => out.putStrLn (hexOf (Path.join [unhex a, unhex b]))
   | ["rel", a, b] => out.putStrLn (match Path.rel (unhex a) (unhex b) with | some r => hexOf r | none => "ERR")
   | ["absrel", a, b] => out.putStrLn (match Path.rel (unhex a) (Path.clean (unhex b)) with | some r => hexOf r | none => "ERR")
+  | ["rebase", r, c, a] =>
+    -- `pathAbsThenRel(root, arg)` in a process whose working directory is `c` (theorems: Props/C01path.lean)
+    out.putStrLn (match Dud.C01path.pathAbsThenRel (unhex r) (unhex c) (unhex a) with | some x => hexOf x | none => "ERR")
   | _ => out.putStrLn "bad-op"
   pathLoop inp out
 
